@@ -41,6 +41,8 @@ RULES = {
     "C07-E1": "a per-edge quantity visits the faces on both sides of the edge (direct_face(A,B) and direct_face(B,A)) independently: "
               "no break / return / nesting lets an absent face on one side suppress the other side",
     "C07-E2": "no per-element quantity is guarded by a comparison of a dimensional expression (length, area, volume ...) with an absolute constant",
+    "C07-P1": "a function returning a position returns an affine combination of its input positions (weights summing to one; when rebuilt from "
+              "coordinates in an orthonormal frame, along all three axes of the frame), never a pure vector",
     "C07-Z1": "an accumulator that is read-modify-written (+=, x = x + ..) is built in the function or reset (clear()) before the accumulation",
     "C07-X1": "closed-form primitives of geometry.py are the textbook polynomials (cross, det_2x2, det_3x3, quad_area, aspect_ratio, "
               "triangle_area) and angle primitives take both vectors from the central point",
@@ -62,6 +64,7 @@ def run(ctx):
     e1_edge_sides(ctx)
     e2_absolute_thresholds(ctx)
     z1_reset_before_accumulate(ctx)
+    p1_points(ctx)
 
 
 def top_funcs(ctx, modname):
@@ -1182,26 +1185,44 @@ def f(mesh, normals):
 
 
 def threshold_rule(ctx, rule, modules):
+    """comparisons of a dimensional expression with a non-zero literal, decided by the forward interpreter (c0708_geo): inside the
+    listed modules, and inside the functions of geometry.py they call, with the degrees of the actual arguments"""
+    from ..rules import c0708_geo as GEO
     tree = ast.parse(_E2_FIXTURE)
     for x in ast.walk(tree):
         for c in ast.iter_child_nodes(x):
             c._parent = x
-    fx = list(H.threshold_compares(tree.body[0]))
+    world = GEO.World(ctx.repo)
+    fx = GEO.Interp(world, "mouette." + GEOM, tree.body[0]).run().compares
     if len(fx) != 1 or fx[0][3] != 2:
         raise AnalysisError(f"{rule}: built-in fixture (|cross| < 1e-8, degree 2) not recognised by the matcher: {fx}")
-    n = 0
+    seen = {}       # id(compare node) -> (module, fn, node, expr, lit, deg, via)
     for modname in modules:
         m = ctx.repo.module(modname)
         for q, fn in m.funcs.items():
             if "<locals>" in q:
                 continue
-            for node, expr, lit, deg in H.threshold_compares(fn):
-                n += 1
-                ctx.check(deg == 0, rule, ctx.site(modname, fn, node),
-                          f"{q}: `{au.src(node)}` compares `{au.src(expr)}` (a length to the power {deg:g}) with the absolute constant {lit:g}",
-                          "the outcome of the test changes under a uniform scaling of the mesh: well-shaped elements of a mesh given in small "
-                          "(or large) units are treated differently, so the quantity neither scales with the right power nor stays invariant",
-                          note=f"{q}: `{au.src(node)}` is dimensionless")
+            world = GEO.World(ctx.repo)
+            it = GEO.Interp(world, m.name, fn).run()
+            found = [(m.name, fn, c, None) for c in it.compares]
+            for (cm, cname), lst in world.calls.items():
+                cfn = ctx.repo.modules[cm].funcs[cname]
+                for amap, sub in lst:
+                    found += [(cm, cfn, c, q) for c in sub.compares]
+            for cm, cfn, (node, expr, lit, deg), via in found:
+                prev = seen.get(id(node))
+                if prev is None or (prev[5] == 0 and deg != 0):
+                    seen[id(node)] = (cm, cfn, node, expr, lit, deg, via)
+    n = 0
+    for cm, cfn, node, expr, lit, deg, via in seen.values():
+        n += 1
+        q = cfn.name
+        how = f" (reached from {via} with arguments built from mesh.vertices)" if via else ""
+        ctx.check(deg == 0, rule, ctx.site(cm, cfn, node),
+                  f"{q}: `{au.src(node)}` compares `{au.src(expr)}` (a length to the power {deg:g}) with the absolute constant {lit:g}{how}",
+                  "the outcome of the test changes under a uniform scaling of the mesh: well-shaped elements of a mesh given in small "
+                  "(or large) units are treated differently, so the quantity neither scales with the right power nor stays invariant",
+                  note=f"{q}: `{au.src(node)}` is dimensionless")
     return n
 
 
@@ -1299,3 +1320,71 @@ def z1_reset_before_accumulate(ctx):
                           f"the old content: the result is (old + sum)/n instead of sum/n",
                           note=f"{q}: accumulator `{base}` is {how}")
     ctx.require_count("C07-Z1 read-modify-write accumulators", n, 6)
+
+
+# ----------------------------------------------------------------------- C07-P1
+# roles of the parameters of the point-returning primitives of geometry.py: 1 = position, 0 = direction / displacement
+POINT_PRIMITIVES = {
+    "circumcenter": {"v1": 1, "v2": 1, "v3": 1},
+    "intersect_2lines2D": {"p1": 1, "d1": 0, "p2": 1, "d2": 0},
+    "project_to_plane": {"P": 1, "N": 0, "orig": 1},
+}
+# attribute functions whose values are positions (stored in the returned attribute / returned)
+POINT_ATTRIBUTES = [("attributes.attr_cells", "cell_barycenter"), ("attributes.attr_faces", "face_barycenter"),
+                    ("attributes.attr_faces", "face_circumcenter"), ("attributes.attr_edges", "edge_middle_point"),
+                    ("attributes.glob", "barycenter")]
+P1_WHAT = ("a position must be an affine combination of the input positions (weights summing to one, along every axis): otherwise the "
+           "result does not follow the mesh under a translation - it is only right when the origin happens to lie in the element's plane")
+
+
+def p1_points(ctx):
+    from ..rules import c0708_geo as GEO
+    from ..sym import Poly as _P
+    gm = ctx.repo.module(GEOM)
+    for name, roles in POINT_PRIMITIVES.items():
+        fn = ctx.repo.func(GEOM, name)
+        site = ctx.site(GEOM, fn)
+        missing = [p for p in roles if p not in au.params(fn)]
+        if missing:
+            ctx.fail("C07-P1", site, f"{name}: parameter(s) {missing} not found", "the roles (position / direction) of the parameters are frozen in the checker")
+            continue
+        world = GEO.World(ctx.repo)
+        am = {k: GEO.Val(1, GEO.P(_P.const(w))) for k, w in roles.items()}
+        it = GEO.Interp(world, gm.name, fn, am).run()
+        if not it.returns:
+            ctx.fail("C07-P1", site, f"{name}: no returned value found", "")
+        for st, v in it.returns:
+            decided, ok, text = GEO.point_verdict(v, it.frames)
+            rsite = ctx.site(GEOM, fn, st)
+            if not decided:
+                ctx.fail("C07-P1", rsite, f"{name}: the affine weight of the returned point `{au.src(st.value)}` cannot be derived ({text})", P1_WHAT)
+            else:
+                ctx.check(ok, "C07-P1", rsite, f"{name}: the returned position `{au.src(st.value)}` is not an affine combination of the input positions: {text}",
+                          P1_WHAT, note=f"{name}: returned value is a position ({text})")
+    for modname, q in POINT_ATTRIBUTES:
+        fn = ctx.repo.func(modname, q)
+        m = ctx.repo.module(modname)
+        site = ctx.site(modname, fn)
+        world = GEO.World(ctx.repo)
+        it = GEO.Interp(world, m.name, fn).run()
+        rets = [s for s in au.stmts(fn.body) if isinstance(s, ast.Return) and s.value is not None]
+        out = rets[-1].value.id if rets and isinstance(rets[-1].value, ast.Name) else None
+        cands = []
+        if out:
+            cands = [(t, val, v, sub) for sub, t, val, v in world.stores if sub is it and isinstance(t, ast.Subscript) and au.src(t.value) == out]
+        if not cands:
+            cands = [(None, st.value, v, it) for st, v in it.returns]
+        if not cands:
+            ctx.fail("C07-P1", site, f"{q}: the position stored / returned by the function not found", "")
+        for t, val, v, sub in cands:
+            node = t if t is not None else val
+            callee = world.resolve(m.name, val) if isinstance(val, ast.Call) else None
+            if callee is not None and callee[1].name in POINT_PRIMITIVES:
+                ctx.ok("C07-P1", ctx.site(modname, fn, node), f"{q}: delegates to geom.{callee[1].name} (checked there)")
+                continue
+            decided, ok, text = GEO.point_verdict(v, sub.frames)
+            if not decided:
+                ctx.fail("C07-P1", ctx.site(modname, fn, node), f"{q}: the affine weight of the position `{au.src(val)}` cannot be derived ({text})", P1_WHAT)
+            else:
+                ctx.check(ok, "C07-P1", ctx.site(modname, fn, node), f"{q}: `{au.src(val)}` is not an affine combination of vertex positions: {text}",
+                          P1_WHAT, note=f"{q}: position with {text}")
